@@ -1,6 +1,6 @@
 """C18 - results reflect the object's current contents, not earlier calls (E2: operation-history explorer).
 
-Every sequence of operations up to depth d over a 22-operation alphabet (accessor calls, in-place edits, watershed
+Every sequence of operations up to depth d over a 23-operation alphabet (accessor calls, in-place edits, watershed
 calls on other shapes / other objects, a reader call) is executed on freshly built objects in a freshly forked child
 (so no hidden state leaks between histories); afterwards an observation battery is compared with the same battery
 computed in a FRESH INTERPRETER on a freshly constructed object with the same contents.
@@ -26,7 +26,7 @@ DIR1 = np.arange(8) * 45.0
 DIR2 = np.arange(8) * 22.5 + 10.0  # same size, other spacing: the bin width changes
 OPS = ["hs", "tp", "dd", "smooth", "crsd", "stats_unknown", "set_efth", "set_ds_dir", "set_da_dir", "set_freq",
        "ws_shapeA", "ws_shapeB", "other_object", "reader", "efth_values_inplace", "coords_dir", "coords_freq", "da_values_inplace",
-       "observe_all", "ws_shapeT", "ws_empty", "reader_edit"]
+       "observe_all", "ws_shapeT", "ws_empty", "reader_edit", "fit_with_empty"]
 EDITS = {"set_efth": 0, "set_ds_dir": 1, "set_da_dir": 2, "set_freq": 3, "efth_values_inplace": 0, "coords_dir": 1, "coords_freq": 3, "da_values_inplace": 4}
 
 
@@ -72,10 +72,12 @@ def apply_op(op, ds, da, env):
     elif op == "crsd":
         ds.spec.crsd().values
     elif op == "stats_unknown":
-        try:
-            ds.spec.stats(["foo"])
-        except ValueError:
-            pass
+        for call in (lambda: ds.spec.stats(["foo"]), lambda: da.spec.stats(["hs", "foo"], fmin=0.06, fmax=0.15),
+                     lambda: ds.efth.spec.stats(["hs", "dd"], fmax=0.12), lambda: ds.spec.stats({"hs": {"nosuchkw": 1}}, dmin=40.0, dmax=200.0)):
+            try:
+                call()
+            except (ValueError, TypeError):
+                pass
     elif op == "set_efth":
         ds["efth"] = (("site", "freq", "dir"), efth(2).copy())
     elif op == "set_ds_dir":
@@ -106,6 +108,15 @@ def apply_op(op, ds, da, env):
         o.to_dataset().spec.tp().values
     elif op == "observe_all":
         battery(ds, da)   # every function that is observed at the end is also exercised as an earlier operation (memoisation anywhere)
+    elif op == "fit_with_empty":
+        # spectral fits on another array that holds a spectrum without energy and one without an interior peak
+        o = xr.DataArray(np.stack([np.zeros((6, 4)), np.tile((1.0 + np.arange(6))[:, None], (1, 4)), np.abs(np.sin(np.arange(24.0))).reshape(6, 4) + 0.1]),
+                         dims=["site", "freq", "dir"], coords={"site": [1, 2, 3], "freq": 0.05 * 1.2 ** np.arange(6), "dir": np.arange(4) * 90.0}, name="efth")
+        try:
+            o.spec.fit_jonswap(spectra=False).compute()
+            o.spec.fit_gaussian(spectra=False).compute()
+        except Exception:  # noqa
+            pass
     elif op == "ws_empty":
         # a watershed call on an empty selection (no frequency in the band): raises on every tree; must leave nothing behind
         try:
@@ -260,7 +271,7 @@ def classify_prefix(hist):
     for op in hist:
         if op in EDITS:
             kinds.add(op + ("-after-call" if called else ""))
-        elif op in ("ws_shapeA", "ws_shapeB", "ws_shapeT", "ws_empty", "other_object", "reader", "reader_edit"):
+        elif op in ("ws_shapeA", "ws_shapeB", "ws_shapeT", "ws_empty", "other_object", "reader", "reader_edit", "fit_with_empty"):
             kinds.add("other-" + ("watershed" if op.startswith("ws") else op))
         else:
             called = True
@@ -303,7 +314,7 @@ def replay(case):
     return vs
 
 
-REDUCED = ["observe_all", "crsd", "ws_shapeT", "ws_empty", "reader_edit"] + sorted(EDITS)
+REDUCED = ["observe_all", "stats_unknown", "ws_shapeT", "ws_empty", "fit_with_empty"] + sorted(EDITS)
 
 
 def histories(depth, tier):
@@ -324,7 +335,7 @@ def run(rep, tier, seed, parts=None):
     common.load_wavespectra()
     os.environ["C18_BATTERY"] = "light" if tier == "quick" else "full"
     depth = 3 if tier == "quick" else 4
-    rep.rule = ("all operation sequences up to depth %d over the 22-operation alphabet %s (quick: full alphabet to depth 2, depth 3 over a reduced 13-operation "
+    rep.rule = ("all operation sequences up to depth %d over the 23-operation alphabet %s (quick: full alphabet to depth 2, depth 3 over a reduced 13-operation "
                 "alphabet with at least one edit, 17-observation battery; thorough: full alphabet to depth 3, reduced alphabet with an edit at depth 4, 28-observation battery); each history runs on freshly built objects in a freshly "
                 "forked child and its 28-observation battery is compared with a fresh interpreter's battery on a freshly constructed "
                 "object of the same contents. A state is (content, accessor/memo/global-table signature) after a history; transitions = "
